@@ -160,7 +160,10 @@ class IDStat:
         The `name` attribute of the returned series is set using the `name` property.
 
         """
-        return pd.Series(self.asdict(), name=self.name)
+        d = self.asdict()
+        # an explicit index: pandas would turn IDs that are tuples into a MultiIndex
+        index = pd.Index(list(d.keys()), tupleize_cols=False)
+        return pd.Series(list(d.values()), index=index, name=self.name)
 
     def ashist(self, bins=10, bin_edges=False, density=False, log_binning=False):
         """Return the distribution of a numpy array.
@@ -532,7 +535,15 @@ class MultiIDStat(IDStat):
 
         """
         result = {s.name: s.asdict() for s in self.stats}
-        series = [pd.Series(v, name=k) for k, v in result.items()]
+        # an explicit index: pandas would turn IDs that are tuples into a MultiIndex
+        series = [
+            pd.Series(
+                list(v.values()),
+                index=pd.Index(list(v.keys()), tupleize_cols=False),
+                name=k,
+            )
+            for k, v in result.items()
+        ]
         return pd.concat(series, axis=1)
 
     def ashist(self, bins=10, bin_edges=False, density=False, log_binning=False):
